@@ -36,6 +36,7 @@ class BuckGophermapHandler(BaseHandler):
                 # the text file its name suggests.
                 self.entry.settype("1")
                 self.entry.setmimetype("application/gopher-menu")
+                self.entry.setname(os.path.basename(self.getselector()))
                 self.entry.populatefromvfs(self.vfs, self.getselector())
                 self.entry.size = None
             else:
